@@ -342,6 +342,12 @@ def unusedLoop : List String → Map Val → Out Err (Map Val)
       | (.ok _, m') => unusedLoop ts m'
       | _ => .panic
 
+/-- `map.force_write_vertex(id, v)` as a loader step: an index panic aborts the build -/
+def writeVertex (id : Nat) (v : Val) (m : Map Val) : Out Err (Map Val) :=
+  match atomically (forceWriteVertex id v) m with
+  | (.ok _, m') => .ok m'
+  | _ => .panic
+
 /-- one line of the `[VERTICES]` section -/
 def vertexStep (l : Line) (m : Map Val) : Out Err (Map Val) :=
   match l with
@@ -362,10 +368,7 @@ def vertexStep (l : Line) (m : Map Val) : Out Err (Map Val) :=
             match parseCoord ty with
             | none => .err (errBadValue 7)
             | some y =>
-              if !r.isEmpty then .err (errBadValue 4) else
-              match atomically (forceWriteVertex id (.pt x y 0)) m with
-              | (.ok _, m') => .ok m'
-              | _ => .panic
+              if !r.isEmpty then .err (errBadValue 4) else writeVertex id (.pt x y 0) m
 
 def verticesLoop : List Line → Map Val → Out Err (Map Val)
   | [], m => .ok m
